@@ -163,6 +163,16 @@ def run(ctx: core.Ctx):
     bp = big_prepare_probe(ctx)
     if bp and witness is None:
         witness = bp
+    # a command the server does not finish answering: where the model keeps serving, the implementation closed its session -
+    # in these conversations the client never goes away, sends nothing malformed and nobody kills anything
+    for c in disagreements:
+        if witness is None and isinstance(c.get("impl"), dict) and isinstance(c.get("model"), dict):
+            io, mo = c["impl"].get("out") or [], c["model"].get("out") or []
+            closes = lambda outs: any(isinstance(o, (list, tuple)) and len(o) == 2 and o[0] == "OSess" and o[1] == "close" for o in outs)   # noqa: E731
+            if closes(io) and not closes(mo):
+                witness = dict(kind="server-ended-the-conversation", problem="the server closed the session in the middle of a conversation in which the "
+                               "client only waited, paused and resumed: the command in progress gets no complete response", at_event=c.get("event"),
+                               sent_before=repr(io)[:200], events=c.get("events", [])[-40:])
     if witness is not None:
         core.report_violation(ctx, "a command's response is not the one the protocol prescribes", witness)
     if (not pr["ok"] or disagreements) and not ctx.violations:
